@@ -72,14 +72,6 @@ fn shim_cfg_debug_assertions() -> (r: bool) { cfg!(debug_assertions) }
 fn shim_ptr_eq(a: &str, b: &str) -> (r: bool)
     ensures r == (a == b),
 { core::ptr::eq(a, b) }
-// `s.chars().next()`: the first scalar value (std: Chars yields the chars of the slice; UTF-8 is prefix-free)
-#[verifier::external_body]
-fn shim_first_char(s: &str) -> (r: Option<char>)
-    ensures r == first_char(s.spec_bytes()),
-            r is None <==> s.spec_bytes().len() == 0,
-            r is Some ==> is_prefix(encode_scalar(r->0 as u32), s.spec_bytes()) && char_len(r->0) >= 1
-                && is_char_boundary(s.spec_bytes(), char_len(r->0) as int),
-{ s.chars().next() }
 #[verifier::external_body]
 fn shim_str_as_bytes<'a>(s: &'a str) -> (r: &'a [u8])
     ensures r@ == s.spec_bytes(),
@@ -186,6 +178,68 @@ pub proof fn lemma_sub_boundary(b: Seq<u8>, a: int, e: int, k: int)
         assert(sub[k] == b[a + k]);
     }
 }
+// the first n scalar values of a valid string end on a character boundary of it
+pub proof fn lemma_chars_prefix(b: Seq<u8>, n: nat)
+    requires valid_utf8(b), n <= decode_utf8(b).len(),
+    ensures encode_utf8(decode_utf8(b).subrange(0, n as int)).len() <= b.len(),
+            is_char_boundary(b, encode_utf8(decode_utf8(b).subrange(0, n as int)).len() as int),
+            is_prefix(encode_utf8(decode_utf8(b).subrange(0, n as int)), b),
+{
+    let cs = decode_utf8(b);
+    let (x, y) = (cs.subrange(0, n as int), cs.subrange(n as int, cs.len() as int));
+    decode_utf8_encode_utf8(b);
+    encode_utf8_concat(x, y);
+    assert(x + y =~= cs);
+    encode_utf8_valid_utf8(x);
+    assert(b.subrange(0, encode_utf8(x).len() as int) =~= encode_utf8(x));
+    lemma_valid_prefix_boundary(encode_utf8(x), b);
+}
+pub proof fn lemma_encode_single(c: char)
+    ensures encode_utf8(seq![c]) == encode_scalar(c as u32),
+{
+    let b = seq![c];
+    assert(b.drop_first() =~= Seq::<char>::empty());
+    assert(encode_utf8(b.drop_first()) =~= Seq::<u8>::empty());
+    assert(b[0] == c);
+    assert(encode_utf8(b) =~= encode_scalar(c as u32));
+}
+// the first scalar value: its encoding is a prefix of the string and ends on a boundary
+pub proof fn lemma_first_char(b: Seq<u8>)
+    requires valid_utf8(b),
+    ensures match first_char(b) {
+        Some(c) => char_len(c) <= b.len() && is_char_boundary(b, char_len(c) as int) && is_prefix(encode_scalar(c as u32), b) && char_len(c) >= 1,
+        None => b.len() == 0,
+    },
+{
+    let cs = decode_utf8(b);
+    decode_utf8_encode_utf8(b);
+    if cs.len() > 0 {
+        lemma_chars_prefix(b, 1);
+        assert(cs.subrange(0, 1) =~= seq![cs[0]]);
+        lemma_encode_single(cs[0]);
+        // a scalar value encodes to at least one byte
+        assert(char_len(cs[0]) >= 1) by { lemma_encode_scalar_nonempty(cs[0]); }
+    } else {
+        assert(encode_utf8(cs) =~= Seq::<u8>::empty());
+    }
+}
+pub proof fn lemma_encode_scalar_nonempty(c: char)
+    ensures encode_scalar(c as u32).len() >= 1,
+{
+    // chars [c] encode to a valid, non-empty first scalar
+    encode_utf8_first_scalar(seq![c]);
+    lemma_encode_single(c);
+    encode_utf8_valid_utf8(seq![c]);
+    let e = encode_utf8(seq![c]);
+    assert(valid_first_scalar(e));
+    assert(e.len() >= 1);
+}
+// chars of a `str` are the decoding of its bytes
+pub proof fn lemma_str_chars(s: &str)
+    ensures decode_utf8(s.spec_bytes()) == s@,
+{
+    encode_utf8_decode_utf8(s@);
+}
 // a `str` is valid UTF-8 (vstd: spec_bytes = encode_utf8 of its chars) ...
 pub proof fn lemma_str_valid(s: &str)
     ensures valid_utf8(s.spec_bytes()), s.spec_bytes().len() <= usize::MAX,
@@ -206,6 +260,7 @@ def build(U):
     U.use('vstd::utf8::*')
     U.use('core::ops::Range')
     U.use('core::str::Chars')
+    U.use('vstd::std_specs::iter::*')
     F = 'main/src/input.rs'
     U.ghost(P.CORE, 'core vocabulary')
     U.ghost(SHIMS, 'R3 shims')
@@ -250,8 +305,6 @@ def build(U):
     # ---- trait Input with its real default bodies ------------------------------------------------------------
     tr = U.block_item(F, r"pub trait Input<'i>", "trait Input", std=False).drop_attrs()
     tr.std(r1=False)
-    # `self.chars().next()` (chars() = self.get().chars(), input.rs:15) -> shim_first_char(self.get())
-    tr.rw('R3', 'self.chars().next()', 'shim_first_char(self.get())', count=3)
 
 
     tr.rw('R3', 'self.get().starts_with(string)', 'shim_starts_with(self.get(), string)')
@@ -259,11 +312,8 @@ def build(U):
     tr.rw('R3', 'prefix.eq_ignore_ascii_case(string)', 'shim_eq_ignore_ascii_case(prefix, string)')
     # skip_until: `continue` inside a for loop is not supported by Verus -> contract assumed here (listed), body checked by Kani (k_input)
     tr.attr('    #[verifier::external_body]', fname='skip_until')
-    # skip: iterates a Chars iterator (no vstd spec) -> contract assumed here (listed), body checked by Kani (k_input)
-    tr.attr('    #[verifier::external_body]', fname='skip')
-    tr.attr('    #[verifier::external_body]', fname='chars')
     tr.prepend_in_block("    spec fn ctx(&self) -> Ctx<'i>;\n    spec fn off(&self) -> nat;")
-    for m in ['byte_offset', 'input', 'get', 'as_position', 'span', 'match_string', 'match_insensitive', 'skip_until', 'skip', 'match_range', 'match_char_by', 'next', 'cursor', 'start', 'end', 'at_start', 'at_end']:
+    for m in ['byte_offset', 'input', 'get', 'chars', 'as_position', 'span', 'match_string', 'match_insensitive', 'skip_until', 'skip', 'match_range', 'match_char_by', 'next', 'cursor', 'start', 'end', 'at_start', 'at_end']:
         sig, c = P.INPUT_SIGS[m]
         rname = re.search(r'-> \((\w+):', sig).group(1)
         tr.ret(rname, fname=m)
@@ -286,14 +336,42 @@ def build(U):
     CH = '''        proof {
             lemma_str_valid(self.ctx().input);
             lemma_sub_boundary(bytes_of(self.ctx()), self.off() as int, self.ctx().end as int, 0);
+            lemma_first_char(rest(self.ctx(), self.off()));
             match first_char(rest(self.ctx(), self.off())) {
-                Some(c) => { if is_prefix(encode_scalar(c as u32), rest(self.ctx(), self.off())) && is_char_boundary(rest(self.ctx(), self.off()), char_len(c) as int) {
-                    lemma_sub_boundary(bytes_of(self.ctx()), self.off() as int, self.ctx().end as int, char_len(c) as int); } }
+                Some(c) => { lemma_sub_boundary(bytes_of(self.ctx()), self.off() as int, self.ctx().end as int, char_len(c) as int); }
                 None => {}
             }
         }'''
     for m in ('match_range', 'match_char_by', 'next'):
         tr.body_start(CH, fname=m)
+    tr.body_start('''        proof {
+            lemma_str_valid(self.ctx().input);
+            lemma_sub_boundary(bytes_of(self.ctx()), self.off() as int, self.ctx().end as int, 0);
+            assert forall|s: &str| decode_utf8(#[trigger] s.spec_bytes()) == s@ by { lemma_str_chars(s); }
+        }''', fname='chars')
+    tr.attr('    #[verifier::loop_isolation(false)]', fname='skip')
+    tr.body_start('''        proof {
+            lemma_str_valid(self.ctx().input);
+            lemma_sub_boundary(bytes_of(self.ctx()), self.off() as int, self.ctx().end as int, 0);
+        }
+        let ghost r = rest(self.ctx(), self.off());
+        let ghost cs = decode_utf8(r);''', fname='skip')
+    tr.loop(1, it='it', fname='skip', inv='''                invariant
+                    IteratorSpec::remaining(&chars) == cs.subrange(it.index@ as int, cs.len() as int), it.index@ <= cs.len(),
+                    IteratorSpec::obeys_prophetic_iter_laws(&chars),
+                    len == encode_utf8(cs.subrange(0, it.index@ as int)).len(), len <= r.len(),
+                    is_char_boundary(bytes_of(self.ctx()), self.off() + len),''')
+    tr.loop_body_start(1, '''                    proof {
+                        let i = it.index@ as int;
+                        if i < cs.len() {
+                            let (a, b) = (cs.subrange(0, i), seq![cs[i]]);
+                            encode_utf8_concat(a, b);
+                            assert(a + b =~= cs.subrange(0, i + 1));
+                            lemma_encode_single(cs[i]);
+                            lemma_chars_prefix(r, (i + 1) as nat);
+                            lemma_sub_boundary(bytes_of(self.ctx()), self.off() as int, self.ctx().end as int, encode_utf8(cs.subrange(0, i + 1)).len() as int);
+                        }
+                    }''', fname='skip')
     U.emit(tr)
     U.ghost("pub open spec fn inv<'i, I: Input<'i>>(i: I) -> bool { input_inv(i.ctx(), i.off()) }", 'inv')
 
